@@ -118,7 +118,7 @@ CLAIMS = {
  "C17": ("singleapp.AppendableFile: every public method preserves the representation invariant, never panics, and meets the size arithmetic of a "
          "byte log (Append returns the previous size and grows it by the bytes written; SetOffset(o) truncates to o or fails without effect; "
          "flush/sync/ReadAt/DiscardUpto leave the size unchanged in every outcome; ReadAt returns at most size-off bytes); multiapp routes offsets "
-         "to chunk off/fileSize at inner offset off%fileSize, Append splits at multiples of fileSize and terminates. NOTE: the write / Append units were unregistered at the end of the last session (generator error on their queries, see props/parts/con-c17c.json): their clauses below are written, not claimed. Byte CONTENTS of the in-memory part (write buffer): "
+         "to chunk off/fileSize at inner offset off%fileSize, Append splits at multiples of fileSize and terminates. Byte CONTENTS of the in-memory part (write buffer): "
          "write/Append of data that fits the free buffer space store exactly the given bytes behind the unflushed window and leave every older byte of the window unchanged, and return the logical offset of the first new byte; "
          "SetOffset keeps a prefix of the window; readAt/ReadAt return, for every offset at or beyond the flushed file offset, the window byte at that position, also for reads that start in the file part (a defect there was repaired); "
          "harness: SetOffset back into the file, Append, ReadAt across the rewind point returns the new bytes from the rewind point on, never the file's. "
